@@ -10,6 +10,7 @@ import ast
 
 from .core import Unsupported, find_def
 from .driver_py import dotted
+from .lazy import Inliner
 
 OUTPUTS = ["GenPop.v"]
 POP, SEA, DE = "pyhms/core/population.py", "pyhms/demes/single_pop_eas/sea.py", "pyhms/demes/single_pop_eas/de.py"
@@ -18,13 +19,17 @@ POP, SEA, DE = "pyhms/core/population.py", "pyhms/demes/single_pop_eas/sea.py", 
 class ATr:
     """array expressions; env: name -> (code, type); types: pop, arrG, arrF, arrO (optional fitness, None = NaN), mask, idx, nat, bool"""
 
-    def __init__(self, src, orders):
+    def __init__(self, src, orders, bind=None):
         self.src, self.orders = src, list(orders)   # names of argsort oracles still available, in evaluation order
+        self.bind = bind or {}                       # ast.dump of an expression -> (code, type): sub-expressions that ARE a given symbol
 
     def bad(self, node, what):
         raise Unsupported(f"{self.src}:{getattr(node, 'lineno', '?')}: unsupported {what}: {ast.unparse(node)[:160]}")
 
     def expr(self, e, env, index_ty="mask"):
+        dmp = ast.dump(e)
+        if dmp in self.bind:
+            return self.bind[dmp]
         if isinstance(e, ast.Name):
             if e.id in env:
                 return env[e.id]
@@ -38,6 +43,8 @@ class ATr:
             if d is not None and d.endswith(".problem.maximize"):
                 return ("mx", "bool")
             base = self.expr(e.value, env, index_ty)
+            if base[1] == "problem" and e.attr == "maximize":
+                return ("mx", "bool")
             if base[1] == "pop":
                 if e.attr == "fitnesses":
                     return (f"(pf {base[0]})", "arrF")
@@ -136,8 +143,13 @@ class ATr:
                 if a[1] == "pop" and k[1] == "nat" and self.orders:
                     o = self.orders.pop(0)
                     return (f"(gen_topk gdef mx {a[0]} {k[0]} {o})", "pop")
-            if isinstance(e.func, ast.Attribute) and e.func.attr == "to_individuals" and not e.args:
+            if isinstance(e.func, ast.Attribute) and e.func.attr in ("to_individuals", "copy") and not e.args:
                 return self.expr(e.func.value, env, index_ty)
+            if d == "Population.from_individuals" and len(e.args) == 1 and isinstance(e.args[0], ast.Name) and e.args[0].id in env:
+                return env[e.args[0].id]
+            if d == "self._crossover" and "$trial" in env:
+                # the engine's trial population: mutation and crossover produce it, evaluate() (a statement, in place) fills in its fitness
+                return env["$trial"]
         self.bad(e, "expression")
 
     def body(self, stmts, env, index_ty="mask"):
@@ -173,37 +185,59 @@ Definition where_nan (m : list bool) (a : list (option Z)) : list (option Z) := 
 """
 
 
+def ret_of(fn, src):
+    body = [s_ for s_ in fn.body if not (isinstance(s_, ast.Expr) and isinstance(s_.value, ast.Constant))]
+    if not body or not isinstance(body[-1], ast.Return) or body[-1].value is None:
+        raise Unsupported(f"{src}:{fn.lineno}: {fn.name} does not end with `return <value>`")
+    return body[-1]
+
+
 def translate(repo):
     out = ["(* GENERATED from pyhms/core/population.py, sea.py (BaseSEA.select_new_population) and de.py by hv/translate/popops_py.py — do not edit *)",
            "From Coq Require Import List Bool Arith ZArith.", "From HV Require Import Ord Select.", "Import ListNotations.", "", PRELUDE]
     fns = []
     pmod = ast.parse(open(f"{repo}/{POP}").read())
     SELF = {"self": ("p", "pop")}
+
+    def result(mod, src, cls, meth, env, orders=(), index_ty="mask", want="pop"):
+        fn = find_def(mod, meth, cls)
+        r = ret_of(fn, src)
+        e = Inliner(fn, src).inline(r.value, r)
+        code, t = ATr(src, orders).expr(e, env, index_ty)
+        if t != want:
+            raise Unsupported(f"{src}:{fn.lineno}: {cls}.{meth} returns {t}")
+        return code, fn
+
     # __getitem__ : the same index selects genomes and fitnesses (twice: boolean mask / integer index array)
     fn = find_def(pmod, "__getitem__", "Population")
+    ixn = fn.args.args[1].arg
     for ity, cty in (("mask", "list bool"), ("idx", "list nat")):
-        code, t = ATr(POP, []).body(fn.body, {**SELF, fn.args.args[1].arg: ("ix", ity)}, ity)
-        if t != "pop":
-            raise Unsupported(f"{POP}: __getitem__ returns {t}")
+        code, _ = result(pmod, POP, "Population", "__getitem__", {**SELF, ixn: ("ix", ity)}, index_ty=ity)
         out.append(f"Definition gen_getitem_{ity} (p : pop) (ix : {cty}) : pop :=\n  {code}.\n")
     fn = find_def(pmod, "merge", "Population")
-    code, t = ATr(POP, []).body(fn.body, {**SELF, fn.args.args[1].arg: ("q", "pop")})
+    code, _ = result(pmod, POP, "Population", "merge", {**SELF, fn.args.args[1].arg: ("q", "pop")})
     out.append(f"Definition gen_merge (p q : pop) : pop :=\n  {code}.\n")
     fn = find_def(pmod, "topk", "Population")
-    code, t = ATr(POP, ["order"]).body(fn.body, {**SELF, fn.args.args[1].arg: ("k", "nat")}, "idx")
+    code, _ = result(pmod, POP, "Population", "topk", {**SELF, fn.args.args[1].arg: ("k", "nat")}, orders=["order"], index_ty="idx")
     out.append(f"Definition gen_topk (mx : bool) (p : pop) (k : nat) (order : list nat) : pop :=\n  {code}.\n")
     fns += [f"{POP}:Population.{m}" for m in ("__getitem__", "merge", "topk")]
-    # update_genome: two in-place masked assignments
+
+    # update_genome: self.genomes[M] = new[M] ; self.fitnesses[M] = np.nan   (either order), M = the rows whose genome changed
     fn = find_def(pmod, "update_genome", "Population")
-    st = [s for s in fn.body if not (isinstance(s, ast.Expr) and isinstance(s.value, ast.Constant))]
-    ok = (len(st) == 3 and isinstance(st[0], ast.Assign) and isinstance(st[0].targets[0], ast.Name)
-          and all(isinstance(s, ast.Assign) and isinstance(s.targets[0], ast.Subscript) and isinstance(s.targets[0].slice, ast.Name) and s.targets[0].slice.id == st[0].targets[0].id for s in st[1:])
-          and dotted(st[1].targets[0].value) == "self.genomes" and dotted(st[2].targets[0].value) == "self.fitnesses" and dotted(st[2].value) == "np.nan"
-          and isinstance(st[1].value, ast.Subscript) and isinstance(st[1].value.value, ast.Name) and st[1].value.value.id == fn.args.args[1].arg
-          and isinstance(st[1].value.slice, ast.Name) and st[1].value.slice.id == st[0].targets[0].id)
-    if not ok:
-        raise Unsupported(f"{POP}:{fn.lineno}: update_genome is not `mask = ...; self.genomes[mask] = new[mask]; self.fitnesses[mask] = np.nan`")
-    m, t = ATr(POP, []).expr(st[0].value, {"self": ("p", "popo"), fn.args.args[1].arg: ("new", "arrG")})
+    newn = fn.args.args[1].arg
+    inl = Inliner(fn, POP)
+    sets = [s_ for s_ in fn.body if isinstance(s_, ast.Assign) and len(s_.targets) == 1 and isinstance(s_.targets[0], ast.Subscript)]
+    others = [s_ for s_ in fn.body if s_ not in sets and not (isinstance(s_, ast.Expr) and isinstance(s_.value, ast.Constant))
+              and not (isinstance(s_, ast.Assign) and len(s_.targets) == 1 and isinstance(s_.targets[0], ast.Name))]
+    gset = [s_ for s_ in sets if dotted(s_.targets[0].value) == "self.genomes"]
+    fset = [s_ for s_ in sets if dotted(s_.targets[0].value) == "self.fitnesses"]
+    if others or len(sets) != 2 or len(gset) != 1 or len(fset) != 1 or dotted(fset[0].value) != "np.nan":
+        raise Unsupported(f"{POP}:{fn.lineno}: update_genome is not `self.genomes[M] = new[M]; self.fitnesses[M] = np.nan`")
+    mg, mf = inl.inline(gset[0].targets[0].slice, gset[0]), inl.inline(fset[0].targets[0].slice, fset[0])
+    rhs = inl.inline(gset[0].value, gset[0])
+    if ast.dump(mg) != ast.dump(mf) or not (isinstance(rhs, ast.Subscript) and isinstance(rhs.value, ast.Name) and rhs.value.id == newn and ast.dump(rhs.slice) == ast.dump(mg)):
+        raise Unsupported(f"{POP}:{fn.lineno}: update_genome: the two assignments do not use one and the same mask of changed rows")
+    m, t = ATr(POP, []).expr(mg, {"self": ("p", "popo"), newn: ("new", "arrG")})
     if t != "mask":
         raise Unsupported(f"{POP}: update_genome mask has type {t}")
     out.append("Definition gen_update_genome (p : popo) (new : list G) : popo :=\n"
@@ -212,62 +246,48 @@ def translate(repo):
     fns.append(f"{POP}:Population.update_genome")
     out.append("End Pop.\nArguments mkpop {G}. Arguments pg {G}. Arguments pf {G}. Arguments mkpopo {G}. Arguments pgo {G}. Arguments pfo {G}.\n")
     out.append("Section Engines.\nContext {G : Type} (geq : G -> G -> bool) (gdef : G).\n")
+
     # BaseSEA.select_new_population
     smod = ast.parse(open(f"{repo}/{SEA}").read())
     fn = find_def(smod, "select_new_population", "BaseSEA")
     a = [x.arg for x in fn.args.args]
-    tr = ATr(SEA, ["order1", "order2"])
-    env = {a[1]: ("parents", "pop"), a[2]: ("offspring", "pop")}
-    tr_expr = tr.expr
-
-    def expr_k(e, env2, index_ty="mask"):
-        if dotted(e) == "self.k_elites":
-            return ("k_elites", "nat")
-        return tr_expr(e, env2, index_ty)
-    tr.expr = expr_k
-    code, t = tr.body(fn.body, env, "idx")
-    code = code.replace("gen_topk gdef mx", "gen_topk gdef mx").replace("(gen_topk gdef", "(gen_topk gdef")
+    r = ret_of(fn, SEA)
+    e = Inliner(fn, SEA).inline(r.value, r)
+    tr = ATr(SEA, ["order1", "order2"], bind={ast.dump(ast.parse("self.k_elites", mode="eval").body): ("k_elites", "nat")})
+    code, t = tr.expr(e, {a[1]: ("parents", "pop"), a[2]: ("offspring", "pop")}, "idx")
+    if t != "pop":
+        raise Unsupported(f"{SEA}: select_new_population returns {t}")
     out.append(f"Definition gen_select_new_population (mx : bool) (k_elites : nat) (parents offspring : pop (G:=G)) (order1 order2 : list nat) : pop (G:=G) :=\n  {code}.\n")
     fns.append(f"{SEA}:BaseSEA.select_new_population")
-    # DE.run / SHADE.run: the replacement mask and the new population
+
+    # DE.run / SHADE.run: what is returned, in terms of the parents and the evaluated trial population
     dmod = ast.parse(open(f"{repo}/{DE}").read())
-    for cls, trial in (("DE", "trial_population"), ("SHADE", "offspring_population")):
+    for cls in ("DE", "SHADE"):
         fn = find_def(dmod, "run", cls)
-        mask_assign = next((s for s in fn.body if isinstance(s, ast.Assign) and isinstance(s.targets[0], ast.Name) and s.targets[0].id == "new_population_indices"), None)
-        if mask_assign is None:
-            raise Unsupported(f"{DE}:{fn.lineno}: {cls}.run has no new_population_indices")
-        env = {trial: ("trial", "pop"), "parent_population": ("parents", "pop")}
-        m, t = ATr(DE, []).expr(mask_assign.value, env)
-        if t != "mask":
-            raise Unsupported(f"{DE}: {cls}.run mask has type {t}")
-        out.append(f"Definition gen_{cls}_mask (mx : bool) (trial parents : pop (G:=G)) : list bool :=\n  {m}.\n")
-        if cls == "DE":
-            ret = fn.body[-1]
-            if not isinstance(ret, ast.Return):
-                raise Unsupported(f"{DE}: DE.run does not end with a return")
-            val = ret.value
-        else:
-            np_assign = next((s for s in fn.body if isinstance(s, ast.Assign) and isinstance(s.targets[0], ast.Name) and s.targets[0].id == "new_population"), None)
-            ret = fn.body[-1]
-            if np_assign is None or not isinstance(ret, ast.Return) or ast.unparse(ret.value) != "new_population.to_individuals()":
-                raise Unsupported(f"{DE}: SHADE.run does not return new_population")
-            val = np_assign.value
-        code, t = ATr(DE, []).expr(val, {**env, "new_population_indices": ("m", "mask")})
+        evals = [s_ for s_ in fn.body if isinstance(s_, ast.Expr) and isinstance(s_.value, ast.Call) and isinstance(s_.value.func, ast.Attribute) and s_.value.func.attr == "evaluate"]
+        if len(evals) != 1:
+            raise Unsupported(f"{DE}:{fn.lineno}: {cls}.run evaluates {len(evals)} populations")
+        r = ret_of(fn, DE)
+        e = Inliner(fn, DE).inline(r.value, r)
+        code, t = ATr(DE, []).expr(e, {fn.args.args[1].arg: ("parents", "pop"), "$trial": ("trial", "pop")})
         if t != "pop":
-            raise Unsupported(f"{DE}: {cls}.run result has type {t}")
-        out.append(f"Definition gen_{cls}_result (trial parents : pop (G:=G)) (m : list bool) : pop (G:=G) :=\n  {code}.\n")
+            raise Unsupported(f"{DE}: {cls}.run returns {t}")
+        out.append(f"Definition gen_{cls}_result (mx : bool) (trial parents : pop (G:=G)) : pop (G:=G) :=\n  {code}.\n")
         fns.append(f"{DE}:{cls}.run[replacement]")
-    # the keep-fitness rule of the four operators: new_fitness = np.where(np.all(new_genomes == population.genomes, axis=1), population.fitnesses, np.nan)
+
+    # the keep-fitness rule of the four operators: the fitness array of the Population they return
     for cls in ("BinaryMutation", "BinaryMutationWithDither", "CurrentToPBestMutation", "Crossover"):
         fn = find_def(dmod, "__call__", cls)
-        nf = [s for s in ast.walk(fn) if isinstance(s, ast.Assign) and isinstance(s.targets[0], ast.Name) and s.targets[0].id == "new_fitness"]
-        if len(nf) != 1:
-            raise Unsupported(f"{DE}:{fn.lineno}: {cls}.__call__ assigns new_fitness {len(nf)} times")
-        c, t = ATr(DE, []).expr(nf[0].value, {"new_genomes": ("new", "arrG"), "population": ("p", "popo")})
+        r = ret_of(fn, DE)
+        e = Inliner(fn, DE).inline(r.value, r)
+        if not (isinstance(e, ast.Call) and dotted(e.func) == "Population" and len(e.args) == 3):
+            raise Unsupported(f"{DE}:{fn.lineno}: {cls}.__call__ does not return Population(new_genomes, new_fitness, problem)")
+        popn = fn.args.args[1].arg
+        c, t = ATr(DE, [], bind={ast.dump(e.args[0]): ("new", "arrG")}).expr(e.args[1], {popn: ("p", "popo")})
         if t != "arrO":
-            raise Unsupported(f"{DE}: {cls} new_fitness has type {t}")
+            raise Unsupported(f"{DE}: {cls} returns a fitness array of type {t}")
         out.append(f"Definition gen_{cls}_new_fitness (p : popo (G:=G)) (new : list G) : list (option Z) :=\n  {c}.\n")
         fns.append(f"{DE}:{cls}.__call__[new_fitness]")
     out.append("End Engines.\n")
-    text = "\n".join(out).replace("(gen_getitem_mask gdef ", "(gen_getitem_mask ").replace("(gen_getitem_idx gdef ", "(gen_getitem_idx gdef ")
+    text = "\n".join(out).replace("(gen_getitem_mask gdef ", "(gen_getitem_mask ")
     return {"GenPop.v": text}, fns
